@@ -53,6 +53,8 @@ type Unit struct {
 	cellStatic map[string]Val
 	hyps      []hyp
 	ghostSyms []string
+	trackCalls map[string]bool
+	argKeyType map[string]types.Type
 	ghostBlock map[string]*ssa.BasicBlock
 	quantHypLines map[int]bool // indices into lines: quantified loop-invariant assumptions
 	typingLines map[int]bool // indices into lines: heap typing axioms
@@ -75,7 +77,7 @@ type Unit struct {
 }
 
 func newUnit(eng *Engine, name string, mode Mode) *Unit {
-	u := &Unit{eng: eng, Name: name, mode: mode, declared: map[string]bool{}, keySort: map[string]string{}, kindCount: map[string]int{}, Notes: map[string]bool{}, specDone: map[string]*compiledSpec{}, quantHypLines: map[int]bool{}, typingLines: map[int]bool{}, entryHeld: map[string][]string{}, freshRefs: map[string]bool{}, keyElem: map[string]types.Type{}}
+	u := &Unit{eng: eng, Name: name, mode: mode, declared: map[string]bool{}, keySort: map[string]string{}, kindCount: map[string]int{}, Notes: map[string]bool{}, specDone: map[string]*compiledSpec{}, trackCalls: map[string]bool{}, argKeyType: map[string]types.Type{}, quantHypLines: map[int]bool{}, typingLines: map[int]bool{}, entryHeld: map[string][]string{}, freshRefs: map[string]bool{}, keyElem: map[string]types.Type{}}
 	u.safety = map[string]bool{"index": true, "slice": true, "div": true, "makelen": true, "typeassert": true, "overflow": !mode.BV, "nil": false, "panic": true, "shift": true}
 	u.prelude()
 	return u
@@ -461,10 +463,26 @@ func sortedKeys[V any](m map[string]V) []string {
 
 // heapTyping asserts that every value stored under a heap constant satisfies the
 // representation invariant of its Go type (well-typed heap).
-func (u *Unit) heapTyping(key, c string) {
+func (u *Unit) heapTyping(key, c string) { u.heapTypingA(key, c, "") }
+
+// heapTypingA: with allocBound != "", references stored in the heap constant also point to
+// objects that exist (are not above the allocation counter of that state).
+func (u *Unit) heapTypingA(key, c, allocBound string) {
 	et, ok := u.keyElem[key]
 	if !ok {
 		return
+	}
+	if allocBound != "" && isRefLike(et) {
+		switch {
+		case strings.HasPrefix(key, "M."):
+			el := "(select (select " + c + " r) i)"
+			u.emit("(assert (forall ((r Int) (i %s)) (! (<= %s %s) :pattern (%s))))", u.mode.idxSort(), refOf(el, et), allocBound, el)
+			u.typingLines[len(u.lines)-1] = true
+		case strings.HasPrefix(key, "H."), strings.HasPrefix(key, "C."):
+			el := "(select " + c + " r)"
+			u.emit("(assert (forall ((r Int)) (! (<= %s %s) :pattern (%s))))", refOf(el, et), allocBound, el)
+			u.typingLines[len(u.lines)-1] = true
+		}
 	}
 	I := u.mode.idxSort()
 	switch {
